@@ -6,8 +6,9 @@ package main
 // assignment of leaf kinds to the leaves is one expression; the leaf kinds cover the operand classes of the
 // translator (narrow SmallInt constant / narrow SmallInt local / BigInt constant / wide value.Value local / wide
 // parameter / temporary holding a call result / temporary holding a quotient). Native builds are the cost, so the
-// expressions are packed: a program holds some hundred to some thousand expressions, `v := <expr>; println(k, v)`
-// each, in groups of etGroup expressions per method (one Go function per group keeps the Go compiler linear).
+// expressions are packed: a program holds some hundred to some thousand expressions, `v := <expr>` each and a
+// `println("#k", v…)` per etPrint of them (every value on its own line, under the index of the first), in groups of
+// etGroup expressions per method.
 // Expressions are dealt round-robin over the programs, so that every program holds a similar mix of shapes.
 //
 // Oracle: line by line. When the outputs of a program differ, the differing expressions are localised (see
@@ -361,7 +362,8 @@ var arithOps = []string{"+", "-", "*", "/", "%"}
 var bitOps = []string{"&", "|", "^"}
 var cmpOps = []string{"<", "<=", ">", ">=", "==", "!="}
 
-const etGroup = 32 // expressions per method
+const etGroup = 64 // expressions per method (a multiple of etPrint)
+const etPrint = 8  // expressions per println
 
 type etPlan struct {
 	ctx      string
@@ -472,12 +474,25 @@ func etLocals(b *strings.Builder, pad string) {
 	}
 }
 
-func etStmt(b *strings.Builder, pad, v string, e *etExpr) {
-	fmt.Fprintf(b, "%s%s := %s\n", pad, v, e.src)
-	if etIsCmp(e.tree.op) {
-		fmt.Fprintf(b, "%sprintln(%d, %s.inspect)\n", pad, e.idx, v)
-	} else {
-		fmt.Fprintf(b, "%sprintln(%d, %s)\n", pad, e.idx, v)
+// etStmts: the statements of consecutive expressions: `v := <expr>` each, and one println per etPrint of them, which
+// prints "#<index of the first>" and then every value on its own line (a println per expression costs about half of
+// the generated Go and of its compile time).
+func etStmts(b *strings.Builder, pad string, es []*etExpr) {
+	for s := 0; s < len(es); s += etPrint {
+		e := s + etPrint
+		if e > len(es) {
+			e = len(es)
+		}
+		args := []string{fmt.Sprintf("\"#%d\"", es[s].idx)}
+		for _, x := range es[s:e] {
+			fmt.Fprintf(b, "%sv%d := %s\n", pad, x.idx, x.src)
+			if etIsCmp(x.tree.op) {
+				args = append(args, fmt.Sprintf("v%d.inspect", x.idx))
+			} else {
+				args = append(args, fmt.Sprintf("v%d", x.idx))
+			}
+		}
+		fmt.Fprintf(b, "%sprintln(%s)\n", pad, strings.Join(args, ", "))
 	}
 }
 
@@ -490,9 +505,7 @@ func etSource(p *etProgram) string {
 		b.WriteString("def et_c(a: Int): Int then a\n")
 		etLocals(&b, "")
 		b.WriteString("for i in 6\n  if i > 4\n")
-		for _, e := range p.exprs {
-			etStmt(&b, "    ", fmt.Sprintf("v%d", e.idx), e)
-		}
+		etStmts(&b, "    ", p.exprs)
 		b.WriteString("  end\nend\n")
 		return b.String()
 	}
@@ -511,9 +524,7 @@ func etSource(p *etProgram) string {
 		fmt.Fprintf(&b, "def et_m%d(%s): Int\n", groups, strings.Join(params, ", "))
 		etLocals(&b, "  ")
 		b.WriteString("  for i in 6\n    if i > 4\n")
-		for _, x := range p.exprs[s:e] {
-			etStmt(&b, "      ", fmt.Sprintf("v%d", x.idx), x)
-		}
+		etStmts(&b, "      ", p.exprs[s:e])
 		b.WriteString("    end\n  end\n  0\nend\n")
 		groups++
 	}
@@ -538,30 +549,34 @@ func exprBatches(thorough bool) []batch {
 
 // ------------------------------------------------------------------ oracle
 
-// etParse: the lines of a packed program's stdout as index → value. ok=false when the output does not have the
-// form (index line, value line)*.
-func etParse(out string) (vals map[int]string, order []int, ok bool) {
+// etParse: the lines of a packed program's stdout as expression index → printed value: a line "#k" starts the values
+// of expressions k, k+1, … (at most etPrint of them). ok=false when the output does not have that form.
+func etParse(out string, n int) (vals map[int]string, ok bool) {
 	vals = map[int]string{}
-	lines := strings.Split(strings.TrimSuffix(out, "\n"), "\n")
 	if out == "" {
-		return vals, nil, true
+		return vals, true
 	}
-	for i := 0; i < len(lines); i += 2 {
-		var k int
-		if _, err := fmt.Sscanf(lines[i], "%d", &k); err != nil || fmt.Sprint(k) != lines[i] {
-			return vals, order, false
+	next, room := -1, 0
+	for _, line := range strings.Split(strings.TrimSuffix(out, "\n"), "\n") {
+		if strings.HasPrefix(line, "#") {
+			var k int
+			if _, err := fmt.Sscanf(line, "#%d", &k); err != nil || fmt.Sprintf("#%d", k) != line || k%etPrint != 0 || k >= n {
+				return vals, false
+			}
+			if _, dup := vals[k]; dup {
+				return vals, false
+			}
+			next, room = k, etPrint
+			continue
 		}
-		if i+1 >= len(lines) {
-			// the index was printed, the value was not: the run stopped inside println
-			return vals, order, true
+		if room == 0 || next >= n {
+			return vals, false
 		}
-		if _, dup := vals[k]; dup {
-			return vals, order, false
-		}
-		vals[k] = lines[i+1]
-		order = append(order, k)
+		vals[next] = line
+		next++
+		room--
 	}
-	return vals, order, true
+	return vals, true
 }
 
 // feature: a description of one inner node of a tree at one of four granularities.
@@ -779,15 +794,15 @@ func checkExprProgram(r *engine.R, rc *rec, p *etProgram) {
 		generic("the native binary died with a Go panic")
 		return
 	}
-	vv, _, okv := etParse(vmr.Stdout)
-	nv, _, okn := etParse(nat.Stdout)
+	vv, okv := etParse(vmr.Stdout, len(p.exprs))
+	nv, okn := etParse(nat.Stdout, len(p.exprs))
 	if !okv || vmr.Failed {
 		// an expression raised on the reference side although the generator's model says it cannot
-		generic("the VM run did not print (index, value) pairs for all expressions: " + vmr.Rep.Head)
+		generic("the VM run did not print the values of all expressions: " + vmr.Rep.Head)
 		return
 	}
 	if !okn {
-		generic("the native output is not a list of (index, value) pairs")
+		generic("the native output does not have the form (#index, values…)*")
 		return
 	}
 	r.Eval(1)
